@@ -827,7 +827,8 @@ fn encodable(req: &Req) -> Option<bool> {
     let rank = |u: usize, id: usize| orders.get(u)?.iter().position(|x| x.0 == Some(id));
     let mut unknown = false;
     for (u, unit) in req.units.iter().enumerate() {
-        if !(2..=5).contains(&unit.version) {
+        // the address size is checked first (`UnsupportedWordSize`), then the version
+        if !matches!(unit.asz, 1 | 2 | 4 | 8) || !(2..=5).contains(&unit.version) {
             return Some(false);
         }
         let word = unit.format.word_size();
@@ -1387,8 +1388,9 @@ fn handle_inner(a: &[&str]) -> Option<String> {
                     Some(s)
                 }
                 Err(why) => {
-                    // two request classes that the writer accepts although it cannot encode them get
-                    // their own failure class (signature), whatever the reader then trips over
+                    // two request classes that the writer used to accept although it cannot encode them
+                    // (findings C11-1 and C11-2, repaired in /repo by 07896a9 and eefb983) keep their own
+                    // failure class, whatever the reader then trips over, should the behaviour return
                     let bad_asz = req.units.iter().any(|u| !matches!(u.asz, 1 | 2 | 4 | 8));
                     let nul = req.units.iter().any(|u| {
                         intended_order(u).iter().any(|(id, _)| {
